@@ -258,3 +258,20 @@ Proof.
   rewrite <- IH. rewrite Rmult_plus_distr_l. f_equal.
   rewrite <- rsum_scal. apply rsum_ext. intros. ring.
 Qed.
+
+(* ---------------------------------------------------------------- the function of a result *)
+Lemma function_bound_lemma : forall x,
+  (forall a b, model_fn MLin [a; b] x = peval [a; b] x) /\
+  (forall a b c, model_fn MQuad [a; b; c] x = peval [a; b; c] x) /\
+  (forall cs, model_fn MPoly cs x = peval cs x) /\
+  (forall c a, model_fn MExpo [c; a] x = c * exp (- (a * x))) /\
+  (forall n m s, 0 < s ->
+     model_fn MGauss [n; m; s] x = n / (s * sqrt (2 * PI)) * exp (- ((x - m) ^ 2 / (2 * s ^ 2)))).
+Proof.
+  intros x. split; [|split; [|split; [|split]]]; intros.
+  - apply fit_lin_peval.
+  - apply fit_quad_peval.
+  - apply fit_poly_peval.
+  - apply fit_expo_spec.
+  - apply fit_gauss_spec. assumption.
+Qed.
